@@ -642,7 +642,9 @@ impl<'a> Ctx<'a> {
                 .iter()
                 .rposition(|dd| dd.tests.iter().any(|t| self.facts.delivered.get(&t.nonce).map(|p| !p.is_empty()).unwrap_or(false)))
                 .map(|i| self.obs.docs[i].doc);
-            let named = named || (stderr_dead && last_touched == Some(d.doc));
+            // (a shell that could not be started belongs to the document AFTER the last one
+            // that reached a shell: no guess then)
+            let named = named || (stderr_dead && last_touched == Some(d.doc) && self.facts.spawn_failed.is_empty());
             // a document in which a test case ended with its skip code is skipped - it does not
             // make the run fail
             if j.skipped_doc && !j.faulted && named && self.sc.tier == Tier::Cli && self.obs.sim_abort.is_none() && self.obs.exit_status == Some(1) {
@@ -1396,9 +1398,38 @@ impl<'a> Ctx<'a> {
     // -------------------------------------------------------------- C20 (history)
 
     pub fn check_history(&self, judgements: &[DocJudgement], out: &mut Vec<Violation>) {
+        // (a document given with -P / -A on the command line runs with EVERY main document of
+        // the run: its test cases are executed once per main document)
+        let mains = self.sc.docs.iter().filter(|d| d.main).count();
+        let shared: std::collections::BTreeMap<&str, bool> = self
+            .sc
+            .docs
+            .iter()
+            .filter(|d| !d.main)
+            .filter_map(|d| {
+                let pre = self.sc.cli.prepend.iter().any(|p| *p == d.path);
+                let app = self.sc.cli.append.iter().any(|p| *p == d.path);
+                if pre || app { Some((d, pre)) } else { None }
+            })
+            .flat_map(|(d, pre)| d.tests.iter().map(move |t| (t.nonce.as_str(), pre)))
+            .collect();
+        if mains > 1 {
+            let clean_run = matches!(self.obs.exit_status, Some(0) | Some(50)) && self.facts.fault_kinds.is_empty() && judgements.iter().all(|j| !j.run_fail && j.stop.is_none());
+            for (n, prepended) in &shared {
+                let got = self.facts.delivered.get(*n).map(|p| p.len()).unwrap_or(0);
+                if *prepended && clean_run && got < mains {
+                    out.push(v(
+                        "C20",
+                        "not-executed",
+                        Some(n),
+                        format!("test {} of a document given with -P was handed to a shell {} times in a run of {} documents: it runs in front of each of them", n, got, mains),
+                    ));
+                }
+            }
+        }
         // at most once
         for (n, pids) in &self.facts.delivered {
-            if pids.len() > 1 {
+            if pids.len() > 1 && !(mains > 1 && shared.contains_key(n.as_str()) && pids.len() <= mains) {
                 out.push(v(
                     "C20",
                     "executed-more-than-once",
@@ -1421,7 +1452,7 @@ impl<'a> Ctx<'a> {
                 }
             }
             for (n, pids) in &ran {
-                if pids.len() > 1 && self.facts.delivered.get(*n).map(|d| d.len() <= 1).unwrap_or(true) {
+                if pids.len() > 1 && self.facts.delivered.get(*n).map(|d| d.len() <= 1).unwrap_or(true) && !(mains > 1 && shared.contains_key(*n) && pids.len() <= mains) {
                     out.push(v(
                         "C20",
                         "executed-more-than-once",
